@@ -7,6 +7,8 @@ package main
 // was writing to, so the far peer observes end-of-stream and the other direction is unblocked; both connections are
 // released on every exit path of the per-connection goroutine.
 //@ func main$1$1 props(C16)
+//@   local backendConn define 0 0 connection . DialWebsocket ( _ , _ , nil )
+//@   local conn define 0 0 _ . Accept ( )
 //@   at io.Copy(backendConn, conn)
 //@   requires conn != nil && backendConn != nil
 //@   ghost copies int = 0
@@ -19,6 +21,8 @@ package main
 //@     do closedDst = closedDst + 1
 //@   ensures[C16:bridge-closed-when-the-tcp-client-direction-ends] closedDst >= 1
 //@ func main$1$2 props(C16)
+//@   local backendConn define 0 0 connection . DialWebsocket ( _ , _ , nil )
+//@   local conn define 0 0 _ . Accept ( )
 //@   at io.Copy(conn, backendConn)
 //@   requires conn != nil && backendConn != nil
 //@   ghost copies int = 0
@@ -31,6 +35,8 @@ package main
 //@     do closedDst = closedDst + 1
 //@   ensures[C16:tcp-client-connection-closed-when-the-bridge-direction-ends] closedDst >= 1
 //@ func main$1 props(C16)
+//@   local backendURL define 0 0 url . Parse ( * backend )
+//@   local conn define 0 0 _ . Accept ( )
 //@   at defer conn.Close()
 //@   requires conn != nil && backendURL != nil
 //@   ghost be ref = nil
